@@ -356,6 +356,45 @@ structure CounterOp where
 def counterRun (c : CounterCfg) (em1 : Nat) (v : Nat) (ops : List CounterOp) : Nat :=
   ops.foldl (fun v o => (counterStep c v ⟨o.inc, o.dec, o.load, o.lv, em1⟩).next) v
 
+/-! ### the `Counter` API as a usage pattern
+
+`Counter::inc()` and `Counter::dec()` each set their request bit under the caller's condition and, *unconditionally*
+(`ConditionalScope{'1', true}`), clear `m_incrementNeverUsed` (Counter.cpp:50-62).  So what matters is which methods the user
+logic ever calls on the instance: a counter on which neither `inc()` nor `dec()` is ever called free-runs (auto-increment),
+one on which either of them is called moves only on request.  `reset()` is `load(m_resetValue)`; `load(v)` sets `m_load` and
+assigns `m_loadValue` — when `load` and `reset` are both requested in a cycle, the call placed later in the program wins. -/
+
+/-- which methods are ever called on the instance (anywhere in the design, under any condition) -/
+structure CounterUse where
+  inc : Bool
+  dec : Bool
+  reset : Bool
+  load : Bool
+  deriving Repr, DecidableEq
+
+/-- value of `m_incrementNeverUsed` after elaboration -/
+def CounterUse.autoInc (u : CounterUse) : Bool := !(u.inc || u.dec)
+
+/-- the conditions of the calls in one cycle -/
+structure CounterCalls where
+  inc : Bool
+  dec : Bool
+  reset : Bool
+  load : Bool
+  lv : Nat
+
+/-- the per-cycle values of `m_inc`, `m_dec`, `m_load`, `m_loadValue` produced by the calls that exist (`resetLast`: `reset()` is
+placed after `load(v)` in the program) -/
+def callsToIn (u : CounterUse) (resetLast : Bool) (rv em1 : Nat) (c : CounterCalls) : CounterIn :=
+  let ld := u.load && c.load
+  let rs := u.reset && c.reset
+  ⟨u.inc && c.inc, u.dec && c.dec, ld || rs,
+   if ld && rs then (if resetLast then rv else c.lv) else if rs then rv else c.lv, em1⟩
+
+/-- register value after a history of per-cycle call patterns on an instance with usage `u` -/
+def counterApiRun (w : Nat) (chk : Bool) (u : CounterUse) (resetLast : Bool) (rv em1 v : Nat) (hist : List CounterCalls) : Nat :=
+  hist.foldl (fun v c => (counterStep ⟨w, chk, u.autoInc⟩ v (callsToIn u resetLast rv em1 c)).next) v
+
 /-- `Counter(size_t end, startup)` (Counter.cpp:23-33): width and overflow handling chosen from `end` -/
 def counterCfgOfEnd (end_ : Nat) (autoInc : Bool) : CounterCfg :=
   if isPow2 end_ then ⟨bwCount end_, false, autoInc⟩ else ⟨bwLast end_, true, autoInc⟩
